@@ -59,73 +59,122 @@ def run(chk, repo):
            "a path that leaves coil untouched keeps driving the last "
            "command; after a timeout that path must apply the safe state",
            path)
-    # the decision chain
-    # the timer restarts only where the switches confirm the coil
-    lg = [st for st in walk_no_nested(f) if isinstance(st, ast.Assign) and any(
-        is_self_attr(t, "lastGood") for t in st.targets)]
-    bad = []
-    for st in lg:
-        facts = {(unparse(e), t) for e, t in path_facts(st)}
-        if not ({("inPosition", True), ("isCorrect", True)} <= facts):
-            bad.append(st)
-    chk.ob("R27.2", sym, "lastGood is refreshed only when the valve is in "
-           "position and correct", bool(lg) and not bad,
-           bad[0] if bad else f,
-           f"`{unparse(bad[0])}` restarts the timeout without the switches "
-           f"confirming the position: a valve that never arrives is never "
-           f"timed out as long as that statement keeps running" if bad else
-           "one refresh, under `inPosition and isCorrect`")
-    top = [s for s in body_without_docstring(f) if isinstance(s, ast.If)]
-    if len(top) != 1:
-        top = [s for s in top if match("inPosition and isCorrect", s.test)
-               is not None]
-    need(len(top) == 1, f"{sym}: decision chain not found")
-    b1 = top[0]
-    need(len(b1.orelse) == 1 and isinstance(b1.orelse[0], ast.If),
-         f"{sym}: expected if / elif / else")
-    b2 = b1.orelse[0]
-    b3 = b2.orelse
-    ok = bool(b3) and not (len(b3) == 1 and isinstance(b3[0], ast.If))
-    chk.ob("R27.1", sym, "the last branch has no condition of its own", ok,
-           b2, "the safe-state reaction is the plain else of the timeout "
-           "test")
-    s1, s2, s3 = stores(b1.body), stores(b2.body), stores(b3)
-    ok = match("inPosition and isCorrect", b1.test) is not None
-    chk.ob("R27.2", sym, "first branch: in position and correct", ok, b1,
-           f"guard `{unparse(b1.test)}`")
-    ok = set(s1) == {"lastGood", "coil"} and unparse(s1.get(
-        "coil")) == "self.target" and unparse(s1.get("lastGood")) == \
-        "monotonic()"
-    chk.ob("R27.2", sym, "good branch: refresh the timer, follow the target",
-           ok, b1, f"stores {sorted(s1)}")
-    ok = match("monotonic() - self.lastGood < self.movingTime", b2.test) \
-        is not None
-    chk.ob("R27.3", sym, "second branch: still within the moving time", ok,
-           b2, f"guard `{unparse(b2.test)}`")
-    ok = set(s2) == {"coil"} and unparse(s2.get("coil")) == "self.target"
-    chk.ob("R27.2", sym, "moving branch: follow the target and nothing else",
-           ok, b2, f"stores {sorted(s2)}: refreshing lastGood here restarts "
-           f"the timeout whenever this branch runs, so a valve that never "
-           f"arrives never times out" if "lastGood" in s2 else
-           f"stores {sorted(s2)}")
-    ok = set(s3) == {"error", "coil", "target"} and unparse(
-        s3.get("error")) == "True" and unparse(s3.get("coil")) == \
-        "self.safeState" and unparse(s3.get("target")) == "self.safeState"
-    chk.ob("R27.3", sym, "timeout branch: error, and coil and target go to "
-           "the configured safe state", ok, b2,
-           f"stores { {k: unparse(v) for k, v in s3.items()} }")
-    inpos = assigned_values(f, "inPosition")
-    ok = len(inpos) == 1 and match("self.openSwitch != self.closedSwitch",
-                                   inpos[0][1]) is not None
-    chk.ob("R27.2", sym, "in position = exactly one switch active", ok, f,
-           "openSwitch != closedSwitch")
-    corr = assigned_values(f, "isCorrect")
-    ok = len(corr) == 1 and match(
-        "(self.closedSwitch or not self.openSwitch) if self.coil == "
-        "self.safeState else (self.openSwitch or not self.closedSwitch)",
-        corr[0][1]) is not None
-    chk.ob("R27.2", sym, "correct = the switch of the commanded side",
-           ok, f, "coil == safeState -> closed side, else open side")
+    # ---- the decision table, extracted semantically: for every store in
+    # update() the condition under which it executes is folded over all
+    # switch / coil / safe-state combinations and both outcomes of the
+    # timeout comparison; the shape of the if/elif/else does not matter
+    rd = ReachingDefs(cfg)
+    TIMEOUT = "monotonic() - self.lastGood < self.movingTime"
+    sts = [n for n in cfg.nodes if n.kind == "stmt" and isinstance(
+        n.stmt, ast.Assign) and any(
+            is_self_attr(t, a_) for t in n.stmt.targets
+            for a_ in ("coil", "target", "error", "lastGood"))]
+    ev0 = Evaluator(repo, f._module)
+
+    def runs(node, env, within):
+        """does the store execute under env / timeout outcome `within`"""
+        for e, t in path_facts(node.stmt):
+            e2 = inline_locals(cfg, e, node, rd)
+            if match(TIMEOUT, e2) is not None:
+                v = within
+            elif match("self.movingTime > monotonic() - self.lastGood",
+                       e2) is not None:
+                v = within
+            else:
+                try:
+                    v = bool(ev0.truth(ev0.eval(e2, env)))
+                except (Unknown, Raised) as ex:
+                    raise AnalysisError(f"{sym}: cannot fold the condition "
+                                        f"`{unparse(e2)[:60]}`: {ex}")
+            if v != t:
+                return False
+        return True
+    # further attributes the conditions read (a state flag somebody added)
+    # become boolean dimensions of the table as well
+    extra = set()
+    for n in sts:
+        for e, t in path_facts(n.stmt):
+            e2 = inline_locals(cfg, e, n, rd)
+            if match(TIMEOUT, e2) is not None:
+                continue
+            for x in ast.walk(e2):
+                if isinstance(x, ast.Attribute) and isinstance(
+                        x.value, ast.Name) and x.value.id == "self":
+                    extra.add(x.attr)
+    extra = sorted(extra - {"openSwitch", "closedSwitch", "coil",
+                            "safeState"})
+    need(len(extra) <= 4, f"{sym}: too many state attributes in the "
+                          f"conditions: {extra}")
+    rows = []
+    for o in (False, True):
+        for c in (False, True):
+            for coil_ in (False, True):
+                for safe in (False, True):
+                    for within in (False, True):
+                        for k in range(2 ** len(extra)):
+                            rows.append((o, c, coil_, safe, within, tuple(
+                                bool(k >> i & 1)
+                                for i in range(len(extra)))))
+    problems = {"lastGood": [], "follow": [], "safe": [], "error": [],
+                "once": []}
+    for o, c, coil_, safe, within, ex_ in rows:
+        me = Obj(None, {"openSwitch": o, "closedSwitch": c, "coil": coil_,
+                        "safeState": safe})
+        me.fields.update(dict(zip(extra, ex_)))
+        env = {"self": me}
+        good = (o != c) and ((c or not o) if coil_ == safe
+                             else (o or not c))
+        tag = (f"open={int(o)} closed={int(c)} coil={int(coil_)} "
+               f"safe={int(safe)} {'within' if within else 'after'} "
+               f"movingTime" + "".join(f" {a_}={int(v_)}" for a_, v_
+                                       in zip(extra, ex_)))
+        ex = [n for n in sts if runs(n, env, within)]
+        done = {}
+        for n in ex:
+            for t in n.stmt.targets:
+                for a_ in ("coil", "target", "error", "lastGood"):
+                    if is_self_attr(t, a_):
+                        done.setdefault(a_, []).append(unparse(n.stmt.value))
+        if len(done.get("coil", [])) != 1:
+            problems["once"].append(f"{tag}: coil stored "
+                                    f"{len(done.get('coil', []))} times")
+        if ("lastGood" in done) != good:
+            problems["lastGood"].append(
+                f"{tag}: timer {'refreshed' if 'lastGood' in done else 'not refreshed'}"
+                f", switches {'confirm' if good else 'do not confirm'} the "
+                f"coil")
+        if good or within:
+            if done.get("coil") != ["self.target"] or "error" in done or \
+                    "target" in done:
+                problems["follow"].append(f"{tag}: stores {done}")
+        else:
+            if done.get("coil") != ["self.safeState"] or done.get(
+                    "target") != ["self.safeState"]:
+                problems["safe"].append(f"{tag}: stores {done}")
+            if done.get("error") != ["True"]:
+                problems["error"].append(f"{tag}: error store "
+                                         f"{done.get('error')}")
+    chk.ob("R27.1", sym, "coil is stored exactly once on every row of the "
+           "decision table", not problems["once"], f,
+           "; ".join(problems["once"][:3]) or "one store per cycle")
+    chk.ob("R27.2", sym, "lastGood is refreshed exactly when the switches "
+           "confirm the coil: one switch active, and it is the one of the "
+           "commanded side", not problems["lastGood"], f,
+           "; ".join(problems["lastGood"][:3]) + ": a refresh without "
+           "confirmation restarts the timeout, so a valve that never "
+           "arrives is never timed out" if problems["lastGood"] else
+           "32 rows")
+    chk.ob("R27.2", sym, "confirmed or still within movingTime: the coil "
+           "follows the target and nothing else happens",
+           not problems["follow"], f,
+           "; ".join(problems["follow"][:3]) or "rows with confirmation or "
+           "time left")
+    chk.ob("R27.3", sym, "unconfirmed after movingTime: coil and target go "
+           "to the configured safeState", not problems["safe"], f,
+           "; ".join(problems["safe"][:3]) or "the attribute, not a literal")
+    chk.ob("R27.3", sym, "unconfirmed after movingTime: error is set",
+           not problems["error"], f, "; ".join(problems["error"][:3])
+           or "error = True")
     vc = repo.cls(V)
     ev = Evaluator(repo, vc.module, vc)
     try:
